@@ -267,10 +267,14 @@ impl Ranking {
     /// number of matches is often an exact multiple of the limit: the selection buffer is compacted
     /// several times and the stream may end exactly on a compaction.
     fn large_case(&self, cx: &mut Cx, lang: &'static str, permute: bool) {
-        let limit = *cx.rng.pick(&[50usize, 64, 64, 100, 128, 128, 150, 200]);
+        let huge = cx.rng.chance(1, 30);
+        let limit = if huge { cx.rng.range(210, 300) } else { *cx.rng.pick(&[50usize, 64, 64, 100, 128, 128, 150, 200]) };
         let k = cx.rng.range(1, 5);
-        let n = if cx.rng.chance(2, 3) { k * limit } else { k * limit + cx.rng.below(limit) };
+        let n = if huge { cx.rng.range(2049, 10 * limit) } else if cx.rng.chance(2, 3) { k * limit } else { k * limit + cx.rng.below(limit) };
         let n = n.min(10 * limit).max(2);
+        if huge {
+            cx.count("stores of more than 2048 records");
+        }
         let pool = ["metal", "mettle", "medal", "mailbox", "meter", "melon", "memo", "mesh"];
         let alpha = gen::lower_alphabet(lang);
         let mut ratings: Vec<usize> = (0..n).map(|i| i * 3 + 1 + cx.rng.below(3)).collect();
@@ -400,10 +404,32 @@ impl Ranking {
         }
         let v = gen::rand_word(&mut cx.rng, &a2, 5, 9);
         let x = gen::rand_word(&mut cx.rng, &a3, 3, 8);
-        let is_plain = |w: &str| with_lang(lang, |l| {
-            let t = gen::tok_record(l, w);
-            t.words.len() == 1 && !t.words[0].is_function()
-        });
+        // "non-function word" is decided by the frozen list, not by the build under test
+        let listed = crate::oracle::listed_function_words(lang);
+        let is_plain = |w: &str| with_lang(lang, |l| gen::tok_record(l, w).words.len() == 1) && !listed.contains(&crate::oracle::norm_word(lang, w));
+        let mut u = u;
+        let (mut a2, mut a3) = (a2, a3);
+        if !listed.is_empty() && cx.rng.chance(1, 6) {
+            // a content word that happens to be two function words run together ("dasein", "conde", "никак")
+            let parts: Vec<&String> = listed.iter().filter(|w| w.chars().count() >= 2 && w.chars().all(|c| c.is_alphabetic())).collect();
+            if parts.len() >= 2 {
+                let cand = format!("{}{}", cx.rng.pick(&parts), cx.rng.pick(&parts));
+                let n = cand.chars().count();
+                let b2: Vec<char> = a2.iter().cloned().filter(|c| !cand.contains(*c)).collect();
+                let b3: Vec<char> = a3.iter().cloned().filter(|c| !cand.contains(*c)).collect();
+                if n >= 4 && n <= 12 && !listed.contains(&cand) && b2.len() >= 4 && b3.len() >= 4 {
+                    u = cand;
+                    a2 = b2;
+                    a3 = b3;
+                    cx.count("u made of two function words run together");
+                }
+            }
+        }
+        let v = if a2.len() < 8 { gen::rand_word(&mut cx.rng, &a2, 5, 9) } else { v };
+        let x = if a3.len() < 8 { gen::rand_word(&mut cx.rng, &a3, 3, 8) } else { x };
+        if with_lang(lang, |l| { let t = gen::tok_record(l, &u); t.words.len() == 1 && t.words[0].is_function() }) && !listed.contains(&crate::oracle::norm_word(lang, &u)) {
+            cx.count("build treats an unlisted word as a function word");
+        }
         if is_plain(&u) && is_plain(&v) && is_plain(&x) {
             let mut pairs: Vec<(&'static str, String, String, String)> = vec![]; // (rule, query, better, worse)
             let uc = cv(&u);
@@ -649,6 +675,7 @@ pub fn function_words(lang: &str) -> Vec<&'static str> {
         "fr" => vec!["le", "la", "de", "et", "à", "un", "une", "du", "des", "dans", "sur", "pour", "par", "après", "derrière", "malgré", "opposé", "ô"],
         "pt" => vec!["o", "a", "de", "e", "com", "para", "em", "um", "uma", "os", "as", "além", "até", "atrás", "próximo", "então", "porém"],
         "ru" => vec!["и", "в", "на", "с", "для", "не", "же", "по", "а", "но", "путём"],
+        "xk" => vec!["の", "が"],
         _ => vec![],
     }
 }
@@ -680,9 +707,9 @@ impl Prop for Ranking {
     }
     fn floors(&self) -> Vec<(&'static str, u64, u64)> {
         match self.0 {
-            Which::Verdicts => vec![("truncated (more matches than limit)", 200, 2000), ("beyond the 10x cap (soundness only)", 100, 1000), ("limit 0", 50, 500), ("selection buffer refilled (matches >= 2*limit)", 100, 1000), ("store with tied ratings (set comparison)", 50, 500), ("empty query", 50, 500), ("corpus-store searches", 100, 2000), ("corpus-store searches compared with the unlimited corpus store", 10, 200), ("large stores (limit 50-200)", 400, 8000), ("large stores whose match count is an exact multiple of the limit", 40, 800)],
-            Which::Order => vec![("pair stores", 2000, 20000), ("permuted stores", 2000, 20000), ("searches with >= 2 hits", 300, 3000), ("truncated lists compared across permutations", 30, 300), ("stores of similar words", 500, 5000), ("large stores (limit 50-200)", 200, 4000)],
-            Which::Rules => vec![("rule exact>typo", 500, 5000), ("rule both>one", 500, 5000), ("rule prefix: exact>tail", 500, 5000), ("rule adjacent>gap", 500, 5000), ("rule first>second", 500, 5000), ("rule identical titles: rating decides", 300, 3000), ("rule equal rating: shorter title first", 300, 3000), ("rule function word: content word first", 1000, 10000)],
+            Which::Verdicts => vec![("truncated (more matches than limit)", 200, 2000), ("beyond the 10x cap (soundness only)", 100, 1000), ("limit 0", 50, 500), ("selection buffer refilled (matches >= 2*limit)", 100, 1000), ("store with tied ratings (set comparison)", 50, 500), ("empty query", 50, 500), ("corpus-store searches", 100, 2000), ("corpus-store searches compared with the unlimited corpus store", 10, 200), ("large stores (limit 50-200)", 400, 8000), ("large stores whose match count is an exact multiple of the limit", 40, 800), ("stores of more than 2048 records", 8, 160)],
+            Which::Order => vec![("pair stores", 2000, 20000), ("permuted stores", 2000, 20000), ("searches with >= 2 hits", 300, 3000), ("truncated lists compared across permutations", 30, 300), ("stores of similar words", 500, 5000), ("large stores (limit 50-200)", 200, 4000), ("stores of more than 2048 records", 4, 80)],
+            Which::Rules => vec![("rule exact>typo", 500, 5000), ("rule both>one", 500, 5000), ("rule prefix: exact>tail", 500, 5000), ("rule adjacent>gap", 500, 5000), ("rule first>second", 500, 5000), ("rule identical titles: rating decides", 300, 3000), ("rule equal rating: shorter title first", 300, 3000), ("rule function word: content word first", 1000, 10000), ("u made of two function words run together", 300, 3000)],
             Which::Empty => vec![("searches after further adds", 1000, 10000), ("truncated lists with tied ratings", 500, 5000), ("stores with distinct ratings", 500, 5000), ("limit 0", 100, 1000), ("stores of 13-60 records", 1000, 10000)],
         }
     }
@@ -693,7 +720,7 @@ impl Prop for Ranking {
         }
     }
     fn run(&self, cx: &mut Cx, stream: &str, idx: u64) {
-        let lang = LANGS[(idx % 7) as usize];
+        let lang = LANGS[(idx % NL) as usize];
         match self.0 {
             Which::Verdicts if stream == "large" => self.large_case(cx, lang, false),
             Which::Order if stream == "large" => self.large_case(cx, lang, true),
